@@ -348,6 +348,9 @@ ocp.set_der(v, a)
             if s in stage._offsets:
                 assert refine==1
                 e, offset = stage._offsets[s]
+                if ca.depends_on(e, stage.t) or (len(self.signals)>0 and ca.depends_on(e, vvcat(self.signals.keys()))):
+                    # only states and controls are shifted below
+                    raise Exception("SplineMethod: ocp.next/prev/offset of an expression that depends on time or on bspline signals is not supported")
 
                 J = ca.jacobian(expr,v)
                 deps = ca.sum1(J.sparsity()).T.row()
@@ -391,8 +394,14 @@ ocp.set_der(v, a)
         f = ca.Function("f",v_symbols+[fixed_parameters,spline_symbols,stage.t],[expr])
         F = f.map(self.N*refine+1-max_offset+min_offset,len(v_symbols)*[False]+ [True,False,False])
         results = F(*v_expressions,fixed_parameters,spline_traj,time)
+        results = self.eval(stage, results)
 
-        return time, self.eval(stage, results)
+        # 'control-' and include_first=False: leave out the last / first grid point
+        if not include_last:
+            time, results = time[:-1], results[:,:-1]
+        if not include_first:
+            time, results = time[1:], results[:,1:]
+        return time, results
 
 
 
